@@ -22,9 +22,9 @@ using namespace dsplib;
 
 namespace {
 
-enum Kind { K_FFT = 0, K_IFFT = 1, K_PLAN_C = 2, K_RFFT = 3, K_IRFFT = 4, K_PLAN_R = 5, K_USE_C = 6, K_USE_R = 7, K_FFT_REAL = 8, K_PLAN_IC = 9, K_PLAN_IR = 10, K_USE_IC = 11, K_USE_IR = 12, K_NKINDS = 13 };
+enum Kind { K_FFT = 0, K_IFFT = 1, K_PLAN_C = 2, K_RFFT = 3, K_IRFFT = 4, K_PLAN_R = 5, K_USE_C = 6, K_USE_R = 7, K_FFT_REAL = 8, K_PLAN_IC = 9, K_PLAN_IR = 10, K_USE_IC = 11, K_USE_IR = 12, K_CZT = 13, K_XCORR = 14, K_HILBERT = 15, K_NKINDS = 16 };
 const char* kind_name(int k) {
-    static const char* n[] = {"fft", "ifft", "FftPlan", "rfft", "irfft", "FftPlanR", "use-stored-FftPlan", "use-stored-FftPlanR", "fft(real)", "IfftPlan", "IfftPlanR", "use-stored-IfftPlan", "use-stored-IfftPlanR"};
+    static const char* n[] = {"fft", "ifft", "FftPlan", "rfft", "irfft", "FftPlanR", "use-stored-FftPlan", "use-stored-FftPlanR", "fft(real)", "IfftPlan", "IfftPlanR", "use-stored-IfftPlan", "use-stored-IfftPlanR", "czt", "xcorr", "hilbert"};
     return n[k];
 }
 inline int code(int kind, int len) { return kind * 100000 + len; }
@@ -79,6 +79,10 @@ std::vector<uint64_t> perform(int kind, int n, Stored& st, int arg) {
     case K_PLAN_IR: { IfftPlanR p(n); auto b = bits(p(cx_input(n / 2 + 1))); st.ir.emplace_back(n, p); return b; }
     case K_USE_IC: { if (st.ic.empty()) return {}; auto& e = st.ic[size_t(arg) % st.ic.size()]; return bits(e.second(cx_input(e.first))); }
     case K_USE_IR: { if (st.ir.empty()) return {}; auto& e = st.ir[size_t(arg) % st.ir.size()]; return bits(e.second(cx_input(e.first / 2 + 1))); }
+    // things built on the transforms (their results must not depend on the history either)
+    case K_CZT: { const int m = (n % 3 == 0) ? n : std::max(1, n / 4); return bits(czt(cx_input(n), m, expj(-2 * pi * 0.8 / n), (n % 2) ? cmplx_t(1) : cmplx_t(0.9, 0.2))); }
+    case K_XCORR: return bits(xcorr(re_input(n), re_input(n / 2 + 1)));
+    case K_HILBERT: return bits(hilbert(re_input(n)));
     }
     return {};
 }
@@ -135,6 +139,13 @@ std::string lru_step(const std::vector<int>& B, const std::vector<int>& A, int r
     return "";
 }
 
+std::string lru_invariants(const std::vector<int>& A, int cap) {
+    if (int(A.size()) > cap) return fmt("cache holds %zu plans, capacity %d", A.size(), cap);
+    std::set<int> u(A.begin(), A.end());
+    if (u.size() != A.size()) return "duplicate key in the cache";
+    return "";
+}
+
 struct HistResult
 {
     bool failed{false};
@@ -171,7 +182,11 @@ HistResult run_history(const std::vector<int>& h) {
             }
             // (2) LRU model
             std::string e1, e2;
-            if (is_use) {
+            if (kind == K_CZT || kind == K_XCORR || kind == K_HILBERT) {
+                // several internal requests: only the invariants are asserted (capacity, no duplicates), plus the result above
+                e1 = lru_invariants(Ac, cap);
+                e2 = lru_invariants(Ar, cap);
+            } else if (is_use) {
                 if (Ac != Bc || Ar != Br) e1 = "using an existing plan object changed the cache: " + show(Bc) + " -> " + show(Ac);
                 const int ckey = (kind == K_USE_IR) ? eff_n / 2 : eff_n;
                 bool gone = (kind == K_USE_R) ? (!is_small(eff_n) && std::find(Br.begin(), Br.end(), eff_n) == Br.end()) : (!is_small(ckey) && std::find(Bc.begin(), Bc.end(), ckey) == Bc.end());
@@ -324,6 +339,7 @@ static void lng_check(const Json& c, Out& o) {
         int n = pool[r.range(0, npool - 1)];
         if (kind == K_USE_C || kind == K_USE_R || kind == K_USE_IC || kind == K_USE_IR) n = r.range(0, 63);
         if (kind == K_IRFFT || kind == K_PLAN_IR) n = 2 * n;
+        if (kind == K_HILBERT) n = std::max(n, 3);
         h.push_back(code(kind, n));
     }
     HistResult res = run_history(h);
